@@ -823,6 +823,11 @@ def run_rejections(ctx, rng):
         inf = {"kind": "bad-index", "key": "accepted:bad-index", "cls": ("reject", "bad-index", i), "what": sh}
         cases.append(Case("bi%d" % i, inf["cls"], "#[derive(derive_more::Display)]\n#[display(%s)]\npub enum E { %s }" % (sh, vs), "",
                           must_fail=True, meta=inf))
+    # an enum-level format on Debug is rejected whatever the enum contains (no variants at all, all variants cfg-removed)
+    for i, body in enumerate(["", "#[cfg(any())] A, #[cfg(any())] B(u8)", "A", "#[cfg(any())] A, B"]):
+        for j, lit in enumerate(['"x"', '"{_variant}"', '"<{_variant}>"']):
+            inf = {"kind": "debug-enum-level", "key": "accepted:debug-enum-level:degenerate", "cls": ("reject", "debug-enum-level", "degenerate", i), "what": "%s on enum { %s }" % (lit, body)}
+            cases.append(Case("dd%d_%d" % (i, j), inf["cls"], "#[derive(derive_more::Debug)]\n#[debug(%s)]\npub enum E { %s }" % (lit, body), "", must_fail=True, meta=inf))
     # documentation is silent on a `_variant` argument that is only reachable indirectly (aliased argument used by
     # index, or inside a larger expression): only recorded
     for i, (sh, vs) in enumerate([('"<{0}>", v = _variant', "A(i32), C"), ('"<{}>", _variant.to_string()', "A(i32), C")]):
